@@ -34,7 +34,7 @@ STUB = ['failure of torch.linalg.svd at planned call indices']
 
 
 def gen_case(rng):
-    api = rng.choices(['op', 'rdiv', 'ew', 'ew_prec', 'ew_start', 'scalar'], [3, 2, 3, 2, 2, 2])[0]
+    api = rng.choices(['op', 'rdiv', 'ew', 'ew_prec', 'ew_start', 'scalar'], [3, 2, 3, 2, 3, 2])[0]
     d = rng.choice([2, 2, 3, 3, 4, 5])
     nmax = {2: 10, 3: 10, 4: 8, 5: 6}[d]
     N = [rng.randint(1, nmax) for _ in range(d)]
